@@ -705,15 +705,18 @@ PROPS['C20'] = dict(
           'evaluations stay infeasible', env=_FF),
         O('C20.noisy_bookkeeping', 'harness.c20_experimenters', 'noisy_bookkeeping', 300, 600,
           'noise wrappers keep the un-noised value as <name>_before_noise, apply the noise function to the value; seeded '
-          'library noise (10 types x 4 seeds) is reproducible and its stream advances', env=_FF),
+          'library noise (10 types x 4 seeds, 120 draws, runs started from different global numpy/python RNG states) is reproducible and its stream advances', env=_FF),
         O('C20.shifting_grid', 'harness.c20_experimenters', 'shifting_grid', 300, 900,
           'shifting evaluates the base objective at x - shift for every point of the (restricted) wrapper space, restores '
           'the suggestion, restricts bounds as documented', 'dyadic grid: shift k/4, points lo + k/4, 1..2 dims'),
         O('C20.permuting_grid', 'harness.c20_experimenters', 'permuting_grid', 200, 600,
           'permuting applies a bijection of the feasible values of exactly the named parameters, same seed same '
-          'permutation, suggestion restored', '8 seeds, categorical(3) + discrete(4) + double'),
+          'permutation, suggestion restored', '8 seeds, categorical(3) + two discrete parameters with overlapping values + double'),
         O('C20.hypercube_grid', 'harness.c20_experimenters', 'hypercube_grid', 200, 600,
           'hyper-cube wrapper evaluates the base at lo + h * (hi - lo)', '5x5 cube points x 15 boxes'),
+        O('C20.hypercube_many', 'harness.c20_experimenters', 'hypercube_many', 120, 300,
+          'hyper-cube wrapper with 11..12 coordinates (h10 sorts before h2 as a string): every base parameter receives its own '
+          'coordinate', '12 coordinate patterns x 11..12 dims'),
         O('C20.contract', 'harness.c20_experimenters', 'contract', 300, 900,
           'every kind: each trial of a batch is completed with finite values for all metrics of the statement or marked '
           'infeasible, parameters (values and types) as suggested, batch == one-at-a-time', '18 kinds x batch 0..3 x 3 points'),
